@@ -107,6 +107,7 @@ retry_find_border:
          */
         node_version64_body nv = std::get<1>(node_and_v);
         if (!(nv.get_root() && nv.get_deleted())) {
+            YAKUSHIMA_VERIF_HOOK(YAKUSHIMA_VERIF_RETRY, nullptr);
             goto retry_from_root; // NOLINT
         }
     }
@@ -129,6 +130,7 @@ retry_fetch_lv:
          * It may be change the correct border between atomically fetching border node and
          * atomically fetching lv.
          */
+        YAKUSHIMA_VERIF_HOOK(YAKUSHIMA_VERIF_RETRY, nullptr);
         goto retry_from_root; // NOLINT
     }
     if (lv_ptr == nullptr) {
@@ -143,6 +145,7 @@ retry_fetch_lv:
              * atomically fetching border and lock.
              */
             target_border->version_unlock();
+            YAKUSHIMA_VERIF_HOOK(YAKUSHIMA_VERIF_RETRY, nullptr);
             goto retry_from_root; // NOLINT
         }
         /**
@@ -157,6 +160,7 @@ retry_fetch_lv:
              * don't have the same key.
              */
             target_border->version_unlock();
+            YAKUSHIMA_VERIF_HOOK(YAKUSHIMA_VERIF_RETRY, nullptr);
             goto retry_fetch_lv; // NOLINT
         }
         value* v = value::create_value<kIsInline>(v_ptr, v_len, v_align);
@@ -183,18 +187,21 @@ retry_fetch_lv:
                 target_border->get_version_vsplit() != v_at_fb.get_vsplit()) {
                 // maybe wrong node
                 target_border->version_unlock();
+                YAKUSHIMA_VERIF_HOOK(YAKUSHIMA_VERIF_RETRY, nullptr);
                 goto retry_from_root; // NOLINT
             }
             if (target_border->get_version_vinsert_delete() !=
                 v_at_fetch_lv.get_vinsert_delete()) {
                 // maybe wrong lv
                 target_border->version_unlock();
+                YAKUSHIMA_VERIF_HOOK(YAKUSHIMA_VERIF_RETRY, nullptr);
                 goto retry_fetch_lv; // NOLINT
             }
             // re-check because delete operation is not tracked.
             lv_ptr = target_border->get_lv_of_without_lock(key_slice, key_slice_length);
             if (lv_ptr == nullptr) {
                 target_border->version_unlock();
+                YAKUSHIMA_VERIF_HOOK(YAKUSHIMA_VERIF_RETRY, nullptr);
                 goto retry_fetch_lv; // NOLINT
             }
 
@@ -226,11 +233,13 @@ retry_fetch_lv:
              !target_border->get_version_root()) ||
             target_border->get_version_vsplit() != v_at_fb.get_vsplit()) {
             // maybe wrong node
+            YAKUSHIMA_VERIF_HOOK(YAKUSHIMA_VERIF_RETRY, nullptr);
             goto retry_from_root; // NOLINT
         }
         if (target_border->get_version_vinsert_delete() !=
             v_at_fetch_lv.get_vinsert_delete()) {
             // maybe wrong lv
+            YAKUSHIMA_VERIF_HOOK(YAKUSHIMA_VERIF_RETRY, nullptr);
             goto retry_fetch_lv; // NOLINT
         }
     }
@@ -246,6 +255,7 @@ retry_fetch_lv:
          !final_check.get_root()) || // this border was deleted.
         final_check.get_vsplit() !=
                 v_at_fb.get_vsplit()) { // this border may be incorrect.
+        YAKUSHIMA_VERIF_HOOK(YAKUSHIMA_VERIF_RETRY, nullptr);
         goto retry_from_root;           // NOLINT
     }
     /**
@@ -253,6 +263,7 @@ retry_fetch_lv:
      */
     if (final_check.get_vinsert_delete() !=
         v_at_fetch_lv.get_vinsert_delete()) { // fetched lv may be deleted
+        YAKUSHIMA_VERIF_HOOK(YAKUSHIMA_VERIF_RETRY, nullptr);
         goto retry_fetch_lv;                  // NOLINT
     }
     if (root == nullptr) {
